@@ -49,10 +49,14 @@ def joinOr (sep : String) (l : List String) : String :=
 def parseRecords (tok : String) : Option (List (List Value)) :=
   if tok == "-" then some []
   else (tok.splitOn ";").mapM fun r =>
-    if r == "-" then some [] else (r.splitOn ",").mapM parseValue
+    if r == "." then some [] else (r.splitOn ",").mapM parseValue
 
 /-- split the argument list of a `chk` line at the `|` separator: (op args, observation tokens) -/
 def splitBar (a : List String) : List String × List String :=
   (a.takeWhile (· ≠ "|"), (a.dropWhile (· ≠ "|")).drop 1)
+
+/-- records: `-` no record; records separated by `;`; a record without values is `.` -/
+def recordsTok (recs : List (List Value)) : String :=
+  joinOr ";" (recs.map fun r => if r.isEmpty then "." else ",".intercalate (r.map valueToken))
 
 end Driver
